@@ -37,6 +37,7 @@ func zzForall[T zzInt](f func(T) bool) bool {
 }
 func zzResult[T any](i int) (zero T) { panic("spec only") }
 func zzIter() int                    { panic("spec only") }
+func zzFresh(x any) bool             { return true }
 
 // --- C19: linktest failure accounting (DESIGN.md Appendix F.7) ---
 
@@ -386,6 +387,15 @@ func zzRecv[T any](name string) T { panic("spec only") }
 //@ ensures [sticky]  old(*started) ==> *started
 //@ ensures [started] result == nil && len(buf) > 0 ==> *started
 //@ ensures [empty]   len(buf) == 0 ==> result == nil && zzCalls("net.(Conn).Read") == 0 && *started == old(*started)
+
+// The production value of transport.allocFrame: exactly n fresh bytes, for every n readFrame can pass (10..MaxByteSize).
+// This discharges, for the allocator that runs in production, what readFrame's [alloc] clause trusts of the
+// function-valued field (tests substitute their own allocators).
+
+//@ func makeFrame
+//@ requires 0 <= n && n <= secs2.MaxByteSize
+//@ ensures [len]   len(result) == n && fresh(result)
+//@ ensures [zero]  forall k :: 0 <= k && k < n ==> result[k] == 0
 
 //@ func (*transport).readFrame
 //@ nosafety nil-deref nil-iface
